@@ -1,6 +1,6 @@
 (* C09 — cohort planner sound: labels partitioned, blocks covered, members counted once. *)
 From Coq Require Import ZArith String List Bool Permutation.
-From Flox Require Import Factorize Rechunk Cohorts CohortsLaw CohortsMerge.
+From Flox Require Import Factorize Rechunk Cohorts CohortsLaw CohortsMerge NormIdx NormIdxLaw.
 Import ListNotations.
 Open Scope Z_scope.
 
@@ -38,7 +38,15 @@ Theorem C09_blockwise_only_if_confined :
     forall x ch, In (x, ch) (label_chunks blocks nlabels) -> length ch = 1%nat.
 Proof. exact blockwise_only_if_confined. Qed.
 
+(* the blocks actually fed to a cohort's reduction: on every axis _normalize_indexes (int / slice / list form)
+   selects exactly the requested blocks, each once, in ascending order *)
+Theorem C09_block_selection_exact :
+  forall idx n, idx <> [] -> (forall i, In i idx -> 0 <= i < n) ->
+    select (normalize_axis idx n) n = zsort (zuniq idx).
+Proof. exact normalize_axis_selects. Qed.
+
 Print Assumptions C09_incidence_exact.
+Print Assumptions C09_block_selection_exact.
 Print Assumptions C09_exact_cohorts_sound.
 Print Assumptions C09_planner_partitions_and_covers.
 Print Assumptions C09_blockwise_only_if_confined.
